@@ -18,6 +18,8 @@ func rulesC05(c *Ctx) {
 	c05Smooth(c)
 	c05Bursty(c)
 	c05Builders(c)
+	buildersStore(c, "ratelimiter")
+	delegatingBuilders(c, "ratelimiter")
 	ruleFailureResult(c)
 	lockDiscipline(c, "ratelimiter")
 	c.Rule("fresh-executor")
@@ -585,6 +587,24 @@ func c05Bursty(c *Ctx) {
 		if fits == triU {
 			bad("the grant does not depend on whether the request fits into the available permits")
 		}
+		if fits == triF {
+			// earliest grant: wait until the start of the period in which the last requested permit becomes free:
+			// (start of next period − now) + extra·period, extra = deficit/P, minus one when deficit is a multiple of P
+			durT := period.Typ
+			deficit := ts.Sub(req, wantAvail, intT)
+			q := ts.Bin("/", deficit, P, intT, false)
+			rem := ts.Bin("%", deficit, P, intT, false)
+			whole := p.State.Facts.Truth(ts, ts.Cmp("==", rem, ts.LinConst(0, intT)))
+			extra := q
+			if whole == triT {
+				extra = ts.Add(q, ts.LinConst(-1, intT), intT)
+			}
+			nextStart := ts.Bin("*", ts.Add(wantCur, ts.LinConst(1, intT), intT), period, durT, true)
+			want := ts.Add(ts.Sub(nextStart, now, durT), ts.Bin("*", extra, period, durT, true), durT)
+			if whole == triU || ret != want {
+				bad(fmt.Sprintf("the wait of a request that does not fit must be the time to the start of the period in which its last permit is free: %s (found %s)", want, ret))
+			}
+		}
 	}
 	if ok && (granted == 0 || refused == 0) {
 		ok = false
@@ -678,6 +698,8 @@ func rulesC13(c *Ctx) {
 	c.Rule("wait")
 	retryLoop(c, map[string]bool{"wait": true, "loop": true})
 	c13Builders(c)
+	buildersStore(c, "retrypolicy")
+	delegatingBuilders(c, "retrypolicy")
 }
 
 func c13GetDelay(c *Ctx) {
